@@ -57,11 +57,11 @@ TEXTS = {
     "C09": {
         "technique": "runtime reference-model monitor: sequential map model shadowing every store operation, full state comparison through get_store() after each step; exhaustive short sequences + random long ones; Miri (thorough)",
         "level_text": "All operation sequences of length <= 2 (quick) / <= 3 (thorough, 70^3 x 2 shard counts) over a 70-operation alphabet are executed against the real store, plus tens of thousands of sampled length-3 and hundreds to thousands of random sequences of 50..400 operations on 1..5 shards (half of them over wide u64 ids: 2^32+x, x<<32|x, hashed, u64::MAX-x); after every single operation the return value and the complete contents of every shard are compared with a sequential model built on the workload's own attribute / metric callbacks (incl. data-driven callback failures). In the random sequences four threads periodically issue the &self operations (lookup with every query kind, shard_stats) concurrently against the quiescent store; each call must return the model's answer. A third of the non-blocking merges are fire-and-forget (future dropped while the merge is in flight); a quiescence detector turns a store operation that never returns into a deadlock violation.",
-        "level_note": "The model calls the same user callbacks, so the oracle is the composition rule of the store / track code. Non-blocking merges are awaited before the next operation. Random sequences are sampled.",
+        "level_note": "The model calls the same user callbacks, so the oracle is the composition rule of the store / track code. Which shard an id maps to is left to the store: a track must be found in the shard get_store(id) hands out, and the per-shard counts must add up. Non-blocking merges are awaited before the next operation. Random sequences are sampled.",
     },
     "C10": {
         "technique": "runtime reference enumeration + controlled schedules: gate scripts at the guarded worker schedule points enumerate every command order (and caller position) for small scenarios, seeded delay plans for larger ones; Miri many-seeds and TSan (thorough)",
-        "level_text": "Every scenario's result and error multisets are compared with an enumeration over the pre-query store contents, the store is compared before/after, and the same query is re-executed under all worker-command interleavings x caller positions (<= 3 shards x <= 2 candidates: up to 90 x 7 scripts) or under random delay plans; the two result streams are read in either order or one of them is dropped unread, and 15% of the scenarios are preceded by an abandoned (half-consumed) query; the number of distinct command orders actually observed is reported.",
+        "level_text": "Every scenario's result and error multisets are compared with an enumeration over the pre-query store contents (features of 1..17 components; in 30% of the scenarios the user metric post-processes each (candidate, stored track) result list as a list), the store is compared before/after, and the same query is re-executed under all worker-command interleavings x caller positions (<= 3 shards x <= 2 candidates: up to 90 x 7 scripts) or under random delay plans; the two result streams are read in either order or one of them is dropped unread, and 15% of the scenarios are preceded by an abandoned (half-consumed) query; the number of distinct command orders actually observed is reported.",
         "level_note": "Exhaustive only at command granularity for the small scenarios; larger scenarios see the schedules the delay plans and the OS produce. Assumes per-worker FIFO command order.",
     },
     "C11": {
@@ -96,12 +96,12 @@ TEXTS = {
     },
     "C20": {
         "technique": "exhaustive table enumeration against a reference lookup + differential / invariant monitors on constrained vs unconstrained tracker runs",
-        "level_text": "All 142 596 constraint tables with <= 3 entries (every order, every split over two add_constraints calls) are probed at 99 (gap, distance) points each; Sort, VisualSort, BatchSort and BatchVisualSort histories with teleporting / re-appearing objects (the batch kinds also re-run pipelined) are run unconstrained, with non-binding and with random binding tables: equality (bit-exact) for non-binding ones, distance-limit invariant and assignment optimality among admissible pairs for binding ones.",
+        "level_text": "All 142 596 constraint tables with <= 3 entries (every order, every split over two add_constraints calls) are probed at 99 (gap, distance) points each; Sort, VisualSort, BatchSort and BatchVisualSort histories with teleporting / re-appearing objects, a quarter of them in normalised coordinates (the batch kinds also re-run pipelined; a third of the constrained VisualSORT configurations derived from options that already carried another table) are run unconstrained, with non-binding and with random binding tables: equality (bit-exact) for non-binding ones, distance-limit invariant and assignment optimality among admissible pairs for binding ones.",
         "level_note": "Table part is exhaustive for the stated alphabet; tracker histories are sampled.",
     },
     "C04": {
         "technique": "runtime differential monitor: interleaved multi-scene run vs fresh single-scene replays of each scene's projection (id bijection, bit-exact numbers) + lifecycle model; explain-divergence oracle for near ties; pipelined re-run of batch histories (one-scene batches A, B, A, ... submitted back to back under stalled store writes) judged call by call",
-        "level_text": "Sort / VisualSort / BatchSort / BatchVisualSort histories of 30..90 calls (or multi-scene batches) over 2..4 scenes, 60% with all scenes occupying the same image region, ~3% with a further scene of the same tracker holding 1200..1600 untouched tracks next to crowded scenes; each scene's records are compared call by call with a fresh tracker fed only that scene's calls; cross-scene attachments are additionally caught by the lifecycle model.",
+        "level_text": "Sort / VisualSort / BatchSort / BatchVisualSort histories of 30..90 calls (or multi-scene batches, filled in scene order, reverse order or round-robin) over 2..4 scenes (40% with wide scene ids that agree in their low 32 bits), 60% with all scenes occupying the same image region, ~3% with a further scene of the same tracker holding 1200..1600 untouched tracks next to crowded scenes; each scene's records are compared call by call with a fresh tracker fed only that scene's calls; cross-scene attachments are additionally caught by the lifecycle model.",
         "level_note": "A grouping difference is only accepted as a tie when both outcomes pass the C02/C12 reference on their own pre-states; such ties are counted and capped at 0.1% of compared calls.",
     },
     "C05": {
